@@ -53,6 +53,8 @@ type c10Result struct {
 	JarCookies int         `json:"jar_cookies"`
 	Issued     int         `json:"session_cookies"`
 	AttrKinds  []string    `json:"attr_kinds"`
+	Follows    int         `json:"followups_at_head"`
+	FollowsNew int         `json:"followups_fresh_cookie"`
 	Violations []c10Viol   `json:"violations"`
 	Problems   []string    `json:"problems"`
 	Trace      interface{} `json:"trace"`
@@ -76,7 +78,8 @@ type c10Result struct {
 // C10 — session tracking hides backend cookies and never mixes sessions.
 func C10(r *core.Run) {
 	r.SetRule("sessions.Cache.SessionHandler driven in-process (race-built worker, -tags verif) over a scripted backend, requests from http.ReadRequest on bare goroutines; " +
-		"sequential histories against one model net/http/cookiejar per session ID (exact oracle on client-visible Set-Cookie and backend-visible Cookie multisets), eviction histories (cache limit 3-5, more sessions), " +
+		"sequential histories against one model net/http/cookiejar per session ID (exact oracle on client-visible Set-Cookie and backend-visible Cookie multisets), eviction histories (cache limit 3-5, more sessions); " +
+		"a third of their requests are followed up at the client-visible moment: when the final WriteHeader reaches the writer under the session handler (the handler goroutine stays inside that call), the same session's next request is served on another goroutine and must meet, at the backend, the jar including the cookies of the response head the client has just seen; " +
 		"concurrent rounds (8-16 goroutines, session-tagged cookie values, porcupine register per (session, cookie name), quiescent comparison, barrier-forced overlapping first uses of one new session ID via the verifhook points sessions.jar.lookup / sessions.jar.store). " +
 		"class = kind | #sessions | #hosts | cache limit | SSL override | Domain classes, deletion forms and client Cookie layouts the history exercised (sequential) or goroutines | sessions | limit | forced/free/evicting (concurrent)")
 	r.Assume("jar semantics are whatever net/http/cookiejar (public suffix list) does for https://<Host><path>; the model parses the backend's Set-Cookie values with net/http's own parser and serialises jar cookies the way http.Client does")
@@ -220,6 +223,8 @@ func C10(r *core.Run) {
 		r.Add("cookie_deletions", res.Deletes)
 		r.Add("jar_cookies_compared_at_backend", res.JarCookies)
 		r.Add("session_cookies_attribute_checked", res.Issued)
+		r.Add("followups_sent_when_the_response_head_was_published", res.Follows)
+		r.Add("followups_expecting_a_cookie_set_by_that_very_response_head", res.FollowsNew)
 		for _, k := range res.AttrKinds {
 			kinds[k]++
 		}
